@@ -798,6 +798,54 @@ static void runCase(const Case &cs, const std::vector<Field> &cat)
             stat("client_roundtrips");
         }
     }
+    // ================================================================ histories: the message is stored / received first, split later
+    // build -> [toXml(SceAll) -> parse(SceAll) into a fresh object]^k -> split (k = 1, 2; k = 0 is everything above), and
+    // receive path (parse public, parseExtensions content) -> split again.  The model-independent oracle judges EVERY split:
+    // no payload value in the public part, public elements whitelisted (the clear-text <body/> only if it is the fallback text
+    // the application set), the parts partition the unsplit form of the same object, the fallback text is never invented.
+    {
+        auto judge = [&](const std::string &hist, const Msg &x, bool fallbackDoubled) {
+            QByteArray xa = toXml(x, QXmpp::SceAll), xp = toXml(x, QXmpp::ScePublic), xe = envelope(x);
+            QDomDocument da, dp, de;
+            auto ka = childrenOf(domOf(xa, da)), kp = childrenOf(domOf(xp, dp));
+            QXmppSceEnvelopeReader rd(domOf(xe, de));
+            auto kc = childrenOf(rd.contentElement());
+            corr("w pub", inv(kp));
+            corr("w content", inv(kc));
+            std::string ps(xp.constData(), size_t(xp.size()));
+            for (auto &p : cs.parts)
+                if (p.first->payload)
+                    for (auto &sct : p.second->secrets)
+                        if (ps.find(sct) != std::string::npos) { failOn("C17:history:leak:", p.first->name, spec + " after " + hist + " public=" + ps); ok = false; }
+            for (auto &c : kp)
+                if (!publicAllowed(c, fb)) { failOn("C17:history:public-element:", c.tag + "{" + c.ns + "}", spec + " after " + hist + " public=" + ps); ok = false; }
+            std::string xfb = S(x.e2eeFallbackBody());
+            if (!xfb.empty() && xfb != fb) { oracleFail("C17:history:fallback-text-invented", spec + " after " + hist + " e2eeFallbackBody=" + xfb); ok = false; }
+            std::multiset<std::string> all, parts;
+            for (auto &c : ka) if (!isFallbackish(c, fb)) all.insert(c.canon);
+            for (auto &c : kp) if (!isFallbackish(c, fb)) parts.insert(c.canon);
+            for (auto &c : kc) if (!isFallbackish(c, fb)) parts.insert(c.canon);
+            if (all != parts) { oracleFail("C17:history:partition", spec + " after " + hist + " public=" + ps); ok = false; }
+            (void)fallbackDoubled;
+            stat("history_splits");
+        };
+        Msg cur = m;
+        for (int k = 1; k <= 2; k++) {
+            QByteArray b = toXml(cur, QXmpp::SceAll);
+            QDomDocument d; Msg next; next.parse(domOf(b, d), QXmpp::SceAll);
+            corr("h cycle", showParsed(next));
+            // an unsplit cycle keeps every value (the fallback text is not part of the unsplit form)
+            auto g = valuesOf(next);
+            for (auto &kv : want)
+                if (kv.first != "e2eeFallbackBody" && g[kv.first] != kv.second) {
+                    failOn("C17:history:cycle-changes:", kv.first, spec + " cycle " + std::to_string(k) + " want=" + kv.second + " got=" + g[kv.first]); ok = false; }
+            cur = next;
+            judge("cycle x" + std::to_string(k), cur, false);
+        }
+        corr("h orig", "ok");
+        corr("h resplit", showParsed(real));
+        judge("receive path", real, true);
+    }
     if (ok) oraclePass()++;
     (void)cat;
 }
